@@ -99,6 +99,11 @@ func (mv *MessageView) SnapshotRequest(req *http.Request) error {
 		fmt.Fprintf(buf, "Content-Length: %d\r\n", req.ContentLength)
 	}
 
+	if req.Close {
+		// net/http keeps "Connection: close" in the Close field.
+		fmt.Fprint(buf, "Connection: close\r\n")
+	}
+
 	// Content codings are case-insensitive.
 	mv.compress = strings.ToLower(req.Header.Get("Content-Encoding"))
 
@@ -166,6 +171,12 @@ func (mv *MessageView) SnapshotResponse(res *http.Response) error {
 		fmt.Fprintf(buf, "Content-Length: %d\r\n", res.ContentLength)
 	}
 
+	if res.Close && !mv.closeDelimited(res) {
+		// net/http keeps "Connection: close" in the Close field. (A response
+		// delimited by the end of the connection has Close set without it.)
+		fmt.Fprint(buf, "Connection: close\r\n")
+	}
+
 	// Content codings are case-insensitive.
 	mv.compress = strings.ToLower(res.Header.Get("Content-Encoding"))
 	// Do not uncompress if we have don't have the full contents.
@@ -216,6 +227,18 @@ func (mv *MessageView) SnapshotResponse(res *http.Response) error {
 	mv.message = buf.Bytes()
 
 	return nil
+}
+
+// closeDelimited reports whether the body of res ends with the connection:
+// it may have a body and has neither a length nor a transfer coding.
+func (mv *MessageView) closeDelimited(res *http.Response) bool {
+	if mv.chunked || res.ContentLength >= 0 {
+		return false
+	}
+	if res.Request != nil && res.Request.Method == "HEAD" {
+		return false
+	}
+	return res.StatusCode >= 200 && res.StatusCode != http.StatusNoContent && res.StatusCode != http.StatusNotModified
 }
 
 // Reader returns the an io.ReadCloser that reads the full HTTP message.
